@@ -1026,19 +1026,48 @@ Section DeclProofs.
   Definition mk_fres (d : decl) (f : field) (dv : option pyval) (o : bool) : fres :=
     {| fr_name := d_name d; fr_field := f; fr_default := dv; fr_optional := o |}.
 
+  (* a truthy default is validated by Field.__init__ under either recognised guard *)
+  Lemma init_validates_truthy dv : py_truthy dv = true -> init_validates dv = true.
+  Proof. unfold init_validates. intros H. destruct init_default_rule; try exact H. destruct dv; try reflexivity; discriminate. Qed.
+
+  (* what a default given with `=` amounts to when it is not a list / dict / set: validated, then stored —
+     on every path (class instantiated with default=, typing instance, Field instance) *)
+  Definition eq_simple (f : field) (eq : option pyval) : res (option pyval) :=
+    match eq with None => Ok None | Some d => _ <- try_default re_match e f d ;; Ok (Some d) end.
+  Definition eq_immutable (eq : option pyval) : bool :=
+    match eq with Some d => negb (is_mutable_default d) | None => true end.
+
+  Lemma eq_default_immutable path f eq : eq_immutable eq = true -> eq_default path f None eq = eq_simple f eq.
+  Proof.
+    destruct eq as [d|]; [|reflexivity]. cbn [eq_immutable]. intros Hm. apply negb_true_iff in Hm.
+    unfold Spelling.eq_default, eq_simple, apply_default. rewrite Hm.
+    destruct path.
+    - destruct (init_validates d) eqn:Hv.
+      + destruct (try_default re_match e f d) as [[]|x]; cbn [bind]; [|reflexivity].
+        destruct (py_truthy d); [reflexivity|]. destruct (try_default re_match e f d) as [[]|x]; reflexivity.
+      + cbn [bind]. destruct (py_truthy d) eqn:Ht; [|reflexivity].
+        rewrite (init_validates_truthy d Ht) in Hv. discriminate.
+    - destruct (try_default re_match e f d) as [[]|x]; reflexivity.
+    - reflexivity.
+  Qed.
+
   Lemma decl_annot_form d :
-    d_annot d = true -> d_kw d = None ->
+    d_annot d = true -> d_kw d = None -> eq_immutable (d_eq d) = true ->
     decl_result d =
     (r <- convert_opt (d_ty d) ;;
      match r with
      | None => Ok None
-     | Some f => dv <- eq_default f None (d_eq d) ;;
+     | Some f => dv <- eq_simple f (d_eq d) ;;
                  Ok (Some (mk_fres d f dv (d_opt d || marks_optional (d_ty d))))
      end).
   Proof.
-    intros Ha Hk. unfold Spelling.decl_result, convert_opt. rewrite Ha, Hk.
+    intros Ha Hk Hm. unfold Spelling.decl_result, convert_opt. rewrite Ha, Hk.
     destruct (pyeval (d_ty d)) as [o|x]; [|reflexivity]. cbn [bind].
-    destruct o; cbn [init_default bind andb]; reflexivity.
+    assert (HI : match o with OFieldInst f => init_default re_match e f None | _ => Ok tt end = Ok tt)
+      by (destruct o; reflexivity).
+    rewrite HI. cbn [bind]. destruct (tli_f o) as [[f|]|y]; cbn [bind]; try reflexivity.
+    assert (HK : match o with OFieldInst _ => @None pyval | _ => None end = None) by (destruct o; reflexivity).
+    rewrite HK, (eq_default_immutable _ f _ Hm). cbn [andb]. reflexivity.
   Qed.
 
   Lemma decl_assign_form d :
@@ -1055,10 +1084,6 @@ Section DeclProofs.
 
   Definition evals_inst (s : tyexpr) : bool :=
     match pyeval s with Ok (OFieldInst _) => true | _ => false end.
-
-  (* a truthy default is validated by Field.__init__ under either recognised guard *)
-  Lemma init_validates_truthy dv : py_truthy dv = true -> init_validates dv = true.
-  Proof. unfold init_validates. intros H. destruct init_default_rule; try exact H. destruct dv; try reflexivity; discriminate. Qed.
 
   (* default=dv in the constructor call, dv truthy *)
   Lemma decl_kw_form d dv f :
@@ -1081,7 +1106,7 @@ Section DeclProofs.
   (* a: s  ~  a: s' *)
   | de_annot d d' :
       d_name d = d_name d' -> d_annot d = true -> d_annot d' = true -> d_kw d = None -> d_kw d' = None ->
-      d_eq d = d_eq d' -> sp_eq (d_ty d) (d_ty d') ->
+      d_eq d = d_eq d' -> eq_immutable (d_eq d) = true -> sp_eq (d_ty d) (d_ty d') ->
       d_opt d || marks_optional (d_ty d) = d_opt d' || marks_optional (d_ty d') -> decl_eq d d'
   (* a = s  ~  a = s' *)
   | de_assign d d' :
@@ -1102,23 +1127,26 @@ Section DeclProofs.
 
   Theorem decl_sound d d' : decl_eq d d' -> decl_result d = decl_result d'.
   Proof.
-    induction 1 as [d|d d' _ IH|d d' d'' _ IH1 _ IH2|d d' Hn Ha Ha' Hk Hk' He Hs Ho
+    induction 1 as [d|d d' _ IH|d d' d'' _ IH1 _ IH2|d d' Hn Ha Ha' Hk Hk' He Hi Hs Ho
                     |d d' Hn Ha Ha' Hk Hk' Hs Hf Hf' Ho|d d' Hn Ha Ha' Hk Hk' He Hs Hf Hf' Ho
                     |d d' dv Hn Ha Hk He Hk' He' Hs Hi Ht Hm Ho].
     - reflexivity.
     - symmetry. exact IH.
     - congruence.
-    - rewrite (decl_annot_form d Ha Hk), (decl_annot_form d' Ha' Hk'), (convert_opt_equiv _ _ Hs), He.
+    - assert (Hi' : eq_immutable (d_eq d') = true) by (rewrite <- He; exact Hi).
+      rewrite (decl_annot_form d Ha Hk Hi), (decl_annot_form d' Ha' Hk' Hi'), (convert_opt_equiv _ _ Hs), He.
       unfold mk_fres. rewrite Hn, Ho. reflexivity.
     - rewrite (decl_assign_form d Ha Hk), (decl_assign_form d' Ha' Hk'), (convert_assign_equiv _ _ Hs Hf Hf').
       unfold mk_fres. rewrite Hn, Ho. reflexivity.
-    - rewrite (decl_annot_form d Ha Hk), (decl_assign_form d' Ha' Hk'), He.
+    - assert (Hi : eq_immutable (d_eq d) = true) by (rewrite He; reflexivity).
+      rewrite (decl_annot_form d Ha Hk Hi), (decl_assign_form d' Ha' Hk'), He.
       rewrite <- (convert_assign_annot _ Hf), (convert_assign_equiv _ _ Hs Hf Hf').
       rewrite (marks_optional_fieldy _ Hf). unfold mk_fres. rewrite Hn, Ho.
       destruct (convert_assign (d_ty d')) as [[f|]|x]; reflexivity.
     - unfold evals_inst in Hi. destruct (pyeval (d_ty d')) as [[]|x] eqn:Hp; try discriminate.
-      rewrite (decl_kw_form d' dv f Hk' He' Ht Hp), (decl_annot_form d Ha Hk), (convert_opt_equiv _ _ Hs), He.
-      unfold convert_opt. rewrite Hp. cbn [bind tli_f tli opt_inst inst]. cbn [Spelling.eq_default]. rewrite Hm.
+      assert (Hi2 : eq_immutable (d_eq d) = true) by (rewrite He; cbn [eq_immutable]; rewrite Hm; reflexivity).
+      rewrite (decl_kw_form d' dv f Hk' He' Ht Hp), (decl_annot_form d Ha Hk Hi2), (convert_opt_equiv _ _ Hs), He.
+      unfold convert_opt. rewrite Hp. cbn [bind tli_f tli opt_inst inst]. cbn [eq_simple].
       unfold mk_fres. rewrite Hn, Ho, orb_false_r.
       destruct (try_default re_match e f dv) as [[]|x]; reflexivity.
   Qed.
